@@ -221,6 +221,39 @@ def check_language(ctx: Ctx):
                 if pol:
                     hs += q.isinstance_heads(e, v.id)
             ok = bool(hs) and set(hs) <= {"Xor", "Not", "Symbol"}
+            srcs = [n.value for n in ast.walk(fi.node) if isinstance(n, ast.Assign) and any(isinstance(t, ast.Name) and t.id == v.id for t in n.targets)]
+            foreign = [x for x in srcs if not (isinstance(x, ast.Call) and head_name(x.func) == "simplify_logic" and x.args and norm(x.args[0]) == p)]
+            if foreign:
+                ctx.undecided(fi.short, f"`{v.id}` can also be `{norm(foreign[0])[:70]}`: a simplification that is not sympy's simplify_logic of the node, whose equivalence with the node no rule here establishes")
             ctx.check(ok, "DP-LANG", fi, "simplified Xor returned only if still Xor/Not/Symbol", str(hs), f"`{v.id}` (sympy's simplification of a Xor) is returned under heads {hs}: And/Or results with any number of operands would reach the 2-operand Or synthesis", r)
     if n < 2:
         raise AnchorError(fi.short, "simplify_logic return sites not found")
+    # every way out of the simplifier is one of: sympy's simplify_logic (trusted, guarded above), the node rebuilt
+    # from its recursively simplified arguments, the node itself.  Anything else is a hand-written rewrite whose
+    # soundness this analysis has not seen
+    for r in q.returns(fi):
+        v = r.value
+        binds = pat.bindings(fi.node)
+        known = (
+            (isinstance(v, ast.Call) and head_name(v.func) == "simplify_logic")
+            or isinstance(v, ast.Name)
+            or (isinstance(v, ast.Call) and isinstance(v.func, ast.Call) and norm(v.func.func) == "type" and len(v.args) == 1 and isinstance(v.args[0], ast.Starred) and q.is_mapped_over(_reaching(fi, r, v.args[0].value, binds), fi.name, f"{p}.args"))
+        )
+        if not known:
+            ctx.undecided(fi.short, f"`return {norm(v)[:80]}`: a simplification step of its own (not sympy's simplify_logic, not the rebuilt node) whose equivalence with its input is not established by any rule here")
+
+
+def _reaching(fi, stmt, e, binds):
+    """what the name `e` denotes at stmt: its single binding, or the definition reaching it in its own block"""
+    if not isinstance(e, ast.Name):
+        return e
+    if e.id in binds:
+        return binds[e.id]
+    for par_ in ast.walk(fi.node):
+        for fld in ("body", "orelse"):
+            b_ = getattr(par_, fld, None)
+            if isinstance(b_, list) and stmt in b_:
+                v = q.value_at(b_, stmt, e)
+                if v is not None:
+                    return v
+    return e
